@@ -200,7 +200,7 @@ theorem applyCodes_other (g : Nat) (k : OKey) (parts : List (Nat Ã— Int Ã— Int Ã
 
 /-- **C16 (no interference).** An OffsetCommit leaves every key it does not name unchanged, in
 every state and whatever the member / generation / store faults are. -/
-theorem _root_.KafVerif.C16.no_interference (s : State) (g mid gen : Nat) (parts : List (Nat Ã— Int Ã— Int Ã— Nat)) (k : OKey)
+theorem _root_.KafVerif.C16.no_interference (s : State) (g mid : Nat) (gen : Int) (parts : List (Nat Ã— Int Ã— Int Ã— Nat)) (k : OKey)
     (hk : âˆ€ e âˆˆ parts, (g, e.1, e.2.1) â‰  k) :
     getOffset (step s (.commit g mid gen parts)).1.offsets k = getOffset s.offsets k := by
   have h := step_spec s (.commit g mid gen parts) (fun k => getOffset s.offsets k) (fun _ => rfl) k
